@@ -15,7 +15,8 @@ Keys == IF SIZE = "q" THEN KeysQ ELSE KeysT
 Vals == IF SIZE = "q" THEN {<<>>, <<120>>} ELSE {<<>>, <<120>>, <<121>>}
 CkTyped == {<<>>, << <<<<83,72,65>>, <<48,65>>>> >>, << <<<<97>>, <<48>>>> >>}
 PairLists == {<<>>, << <<<<107>>, <<120>>>>, <<<<75>>, <<121>>>> >>, << <<<<107,97>>, <<120>>>>, <<<<107,95>>, <<>>>>, <<<<98>>, <<120>>>> >>,
-              << <<<<98>>, <<120>>>>, <<<<33>>, <<120>>>> >>, << <<<<107,95>>, <<120>>>>, <<<<107,97>>, <<121>>>>, <<<<107>>, <<120>>>> >>}
+              << <<<<98>>, <<120>>>>, <<<<33>>, <<120>>>> >>,
+              << <<<<107>>, <<120>>>>, <<<<107,95>>, <<120>>>>, <<<<107,97>>, <<121>>>>, <<<<98>>, <<120>>>> >>, << <<<<107,95>>, <<120>>>>, <<<<107,97>>, <<121>>>>, <<<<107>>, <<120>>>> >>}
 K1 == {"get", "contains_key", "remove", "index", "entry_classify", "occ_remove", "occ_remove_entry"}
 K2 == {"insert", "get_mut_set", "index_mut_set", "entry_or_insert", "entry_or_insert_with", "occ_insert", "vac_insert"}
 Ops == {<<n, k>> : n \in K1, k \in Keys}
@@ -38,7 +39,9 @@ VARIABLES vec, hist
 vars == <<vec, hist>>
 Init == vec = <<>> /\ hist = <<>>
 \* state constraint: at most K entries at a time
-Small == Len(vec) <= K
+\* ... and the larger contents reached by try_from_iter are explored as well (removal from the front / middle of 3 or 4 entries)
+BigStates == {VecFromPairs(ps, <<>>, LowerTab).vec : ps \in {q \in PairLists : VecFromPairs(q, <<>>, LowerTab).ok}}
+Small == Len(vec) <= K \/ vec \in BigStates
 Step(op) == LET r == VecApply(vec, op, LowerTab) IN
             /\ vec' = r.vec
             /\ hist' = IF HIST THEN Append(hist, [op |-> op, res |-> r.res, post |-> r.vec]) ELSE hist
